@@ -42,10 +42,23 @@ type c08Case struct {
 	Stream  []byte `json:"stream"`
 	Choices []int  `json:"short_read_choices,omitempty"`
 	Strings bool   `json:"render_enum_values_first,omitempty"`
+	AppDef  int    `json:"application_assigned_defaults,omitempty"` // k > 0: the exported default parameter structs hold variant k
 }
 
 // secretHistory runs a history of RandomSecret calls on one stream and checks every result.
 func secretHistory(c c08Case, x *xplore.X) (obs, bad string) {
+	if c.AppDef > 0 {
+		// the size of a secret is a function of the ARGUMENT alone, whatever an application has put into the exported
+		// default parameter structs (which say nothing about secrets)
+		sh, st := *otp.DefaultHOTPParam, *otp.DefaultTOTPParam
+		v := [][2]otp.Param{
+			{{Digits: 8, Algorithm: otp.SHA256}, {Digits: 8, Algorithm: otp.SHA512, Period: 60}},
+			{{Digits: 6, Algorithm: otp.SHA512}, {Digits: 6, Algorithm: otp.SHA256, Period: 30}},
+			{{Digits: 6, Algorithm: otp.Algorithm(9)}, {Digits: 6, Algorithm: otp.Algorithm(9), Period: 30}},
+		}[(c.AppDef-1)%3]
+		*otp.DefaultHOTPParam, *otp.DefaultTOTPParam = v[0], v[1]
+		defer func() { *otp.DefaultHOTPParam, *otp.DefaultTOTPParam = sh, st }()
+	}
 	rr := &recReader{stream: c.Stream, x: x}
 	old := rand.Reader
 	rand.Reader = rr
@@ -105,7 +118,7 @@ func secretHistory(c c08Case, x *xplore.X) (obs, bad string) {
 		if d2, e2 := otp.DecodeSecret(s); e2 != nil || !bytes.Equal(d2, want) {
 			return obs, fmt.Sprintf("call %d: after the caller wiped the decoded key, DecodeSecret maps the secret to %x, not to the stream bytes", i, d2)
 		}
-		if code, e3 := otp.GenerateHOTP(s, 1, nil); e3 != nil || code != ref.HOTP(want, 1, 6, 0) {
+		if code, e3 := otp.GenerateHOTP(s, 1, &otp.Param{Digits: 6, Algorithm: otp.SHA1}); e3 != nil || code != ref.HOTP(want, 1, 6, 0) {
 			return obs, fmt.Sprintf("call %d: after the caller wiped the decoded key, GenerateHOTP uses a different key for the secret", i)
 		}
 		// every secret handed out earlier must still be the secret it was (no shared memory with later calls)
@@ -147,6 +160,9 @@ func c08(r *ev.Run) {
 			cs = append(cs, c08Case{Algos: []int{a}, Stream: tag}, c08Case{Algos: []int{a, (a + 1) % 3, a}, Stream: tag})
 		}
 		cs = append(cs, c08Case{Algos: []int{3}, Stream: tag}, c08Case{Algos: []int{255, 0}, Stream: tag})
+		for v := 1; v <= 3; v++ {
+			cs = append(cs, c08Case{Algos: []int{0, 1, 2, 0, 3}, Stream: tag, AppDef: v})
+		}
 		afterWarmups(r, "random-secret-after-other-operations", cs, func(c c08Case) (string, string) { return secretHistory(c, nil) })
 	}
 	if ReplayOnly {
